@@ -89,6 +89,8 @@ class HttpStreamSpec(LayerSpec):
         if isinstance(node, ast.Call) and attr_chain(node.func) == "self.check_killed":
             # entry of the (inlined) kill check
             return [("ck",)]
+        if isinstance(node, ast.Call) and attr_chain(node.func) == "self.check_invalid":
+            return [("ci",)]
         for n in eval_order(node):
             if isinstance(n, ast.Yield):
                 v = n.value
@@ -198,6 +200,14 @@ class HttpStreamSpec(LayerSpec):
             return st.get(ch) if st.has(ch) else UNKNOWN
         # tuple results of GetHttpConnection are correlated; err truthy <=> connection None (both forks kept)
         return LayerSpec.value(self, expr, st, depth)
+
+    def raises_into(self, stmt, handler_names, st):
+        # the only modelled implicit raisers inside HttpStream: header validation / framing of malformed heads
+        if "ValueError" in handler_names:
+            for n in ast.walk(stmt):
+                if isinstance(n, ast.Call) and last_attr(n.func) in ("validate_headers", "expected_http_body_size", "parse_authority"):
+                    return ["ValueError"]
+        return []
 
     def decide_extra(self, cond, st, depth):
         # named refinement: flow.websocket is only set under `status_code == 101 and ...` (send_response)
